@@ -1,9 +1,118 @@
 import RustbusModel.Model.Proto
+import RustbusModel.Model.Send
 namespace Driver.C10
-open Rustbus Rustbus.Proto
+open Rustbus Rustbus.Proto Rustbus.Send
 
-/-- line protocol handler for the ops `c10.*` (tokens of one request line → one response line) -/
+/-- the engine's recognisable body filler: byte i = seed + i + 3 * (i / 256) (mod 256) -/
+def patternGo (seed : Nat) : Nat → List UInt8 → List UInt8
+  | 0, acc => acc
+  | i + 1, acc => patternGo seed i (UInt8.ofNat (seed + i + (i / 256) * 3) :: acc)
+
+def pattern (seed n : Nat) : List UInt8 := patternGo seed n []
+
+def fnv32 (bs : List UInt8) : Nat :=
+  bs.foldl (fun h b => ((h ^^^ b.toNat) * 16777619) % 4294967296) 2166136261
+
+/-- one caller action as the engine observed it -/
+inductive Act
+  | call (ev : Ev)
+  | suspend
+  | write (d : Nat) (how : Char)   -- `write(..)`: took `d` bytes, then 'k' = Ok, 'e' = EAGAIN, 'f' = error, 't' = TimedOut
+
+def parseAct (s : String) : Option Act :=
+  if s == "e" then some (.call .eagain)
+  else if s == "f" then some (.call .fail)
+  else if s == "s" then some .suspend
+  else if s.startsWith "a" then (s.drop 1).toString.toNat?.map (fun n => Act.call (.accept n))
+  else if s.startsWith "W" then
+    let rest := (s.drop 1).toString
+    let how := rest.toList.getLast?.getD 'x'
+    ((rest.dropEnd 1).toString.toNat?).bind (fun d => if how == 'k' || how == 'e' || how == 'f' || how == 't' then some (Act.write d how) else none)
+  else none
+
+def flag (m : Msg) (st : State) : String := if allWritten m st then "c" else "p"
+
+def showRes : Res → String
+  | .ok n => s!"k{n}"
+  | .wouldBlock => "e"
+  | .error => "f"
+
+/-- run the observed actions through the model; `none` in the context = consumed by a successful `write` -/
+def go (m : Msg) : State → Wire → Bool → List Act → List String → Option (State × Wire × Bool × List String)
+  | st, w, consumed, [], acc => some (st, w, consumed, acc.reverse)
+  | st, w, consumed, a :: rest, acc =>
+    if consumed then none else
+    match a with
+    | .suspend =>
+      let c := resume m (intoProgress ⟨m, st⟩)
+      go m c.st w false rest ("s" :: acc)
+    | .call ev =>
+      match offer m st, writeOnce m st w ev with
+      | some o, some (st', w', r) =>
+        go m st' w' false rest (s!"h{o.hdrOff}o{o.bodyOff}:{showRes r}:{st'.bytesSent}:{flag m st'}" :: acc)
+      | _, _ => none
+    | .write d how =>
+      let evs : List WEv :=
+        if how == 'k' then [.io (.accept d)]
+        else (if d = 0 then [] else [.io (.accept d)]) ++
+          [if how == 't' then .timeUp else .io (if how == 'e' then .eagain else .fail)]
+      match write m st w evs with
+      | (.done s, st', w', _) => go m st' w' true rest (s!"W:done{s}:{st'.bytesSent}:{flag m st'}" :: acc)
+      | (.err e, st', w', _) =>
+        let k := match e with | .timedOut => "t" | .wouldBlock => "e" | .other => "f"
+        go m st' w' false rest (s!"W:{k}:{st'.bytesSent}:{flag m st'}" :: acc)
+      | (.running, _, _, _) => none
+      | (.panic, _, _, _) => none
+
+def showTransfers (ts : List (Nat × List Nat)) : String :=
+  if ts.isEmpty then "-" else
+  ";".intercalate (ts.map (fun (p, ids) => s!"{p}:{".".intercalate (ids.map toString)}"))
+
+def optHex (s : String) : Option (Option (List UInt8)) :=
+  if s == "~" then some none else (parseHex s).map some
+def optNat (s : String) : Option (Option Nat) :=
+  if s == "~" then some none else s.toNat?.map some
+
 def handle : List String → String
+  | ["c10.run", hdr, pre, patlen, seed, post, fdids, serial, steps, endTok] =>
+    match parseHex hdr, parseHex pre, patlen.toNat?, seed.toNat?, parseHex post, parseNats fdids, serial.toNat? with
+    | some hdr, some pre, some patlen, some seed, some post, some fds, some serial =>
+      let acts? : Option (List Act) := if steps == "-" then some [] else (steps.splitOn ",").mapM parseAct
+      match acts? with
+      | none => "bad-op"
+      | some acts =>
+        let m : Msg := ⟨hdr, pre ++ (pattern seed patlen ++ post), fds⟩
+        let c := Ctx.start m serial
+        match go m c.st Wire.empty false acts [] with
+        | none => "model-panic"
+        | some (st, w, consumed, items) =>
+          let how : Option Exit :=
+            if endTok == "drop" then some .drop else if endTok == "forget" then some .forceFinish
+            else if endTok == "progress" then some .intoProgress else if endTok == "ffe" then some .forceFinishOnError
+            else none
+          let endObs :=
+            match consumed, how with
+            | false, some e => if exitPanics ⟨m, st⟩ e then "panic" else "ok"
+            | true, none => "ok"
+            | _, _ => "bad-end"
+          let bytes := w.bytes
+          s!"{if items.isEmpty then "-" else ",".intercalate items} end={endObs} sent={st.bytesSent}/{m.total} wire={bytes.length}:{fnv32 bytes} fds={showTransfers w.transfers} serial={st.serial}"
+    | _, _, _, _, _, _, _ => "bad-op"
+  -- c10.start counter preset bo typ flags rs iface dest sender member path err sig body nfds
+  | ["c10.start", counter, preset, bo, typ, flags, rs, iface, dest, sender, member, path, err, sg, body, nfds] =>
+    match counter.toNat?, optNat preset,
+          (if bo == "le" then some ByteOrder.le else if bo == "be" then some .be else none),
+          typ.toNat?, flags.toNat?, optNat rs, optHex iface, optHex dest with
+    | some counter, some preset, some bo, some typ, some flags, some rs, some iface, some dest =>
+      match optHex sender, optHex member, optHex path, optHex err, parseHex sg, parseHex body, nfds.toNat? with
+      | some sender, some member, some path, some err, some sg, some body, some nfds =>
+        let hm : Header.Msg := Header.Msg.mk bo typ flags rs iface dest sender member path err sg body nfds
+        match sendMessage ⟨counter⟩ hm (List.range nfds) preset with
+        | .panic => "panic"
+        | .refused c => s!"refused next={c.counter}"
+        | .started ctx c => s!"started serial={ctx.serial} hdr={toHex ctx.msg.hdr} next={c.counter}"
+      | _, _, _, _, _, _, _ => "bad-op"
+    | _, _, _, _, _, _, _, _ => "bad-op"
   | _ => "bad-op"
 
 end Driver.C10
